@@ -23,6 +23,10 @@ pub struct Logger {
     idx: u64,
     dump: Option<u64>,
     p: Parser,
+    /// shadow parser: fed the same lines except those the capacity model says the
+    /// no-allocator build must reject; its outcomes are what that build must return
+    sp: Parser,
+    open_len: usize,
 }
 
 fn h64(s: &[u8]) -> u64 {
@@ -34,7 +38,7 @@ impl Logger {
     pub fn new() -> Self {
         let out = std::env::var("AISMON_LOG").ok().map(|p| std::io::BufWriter::new(std::fs::File::create(p).expect("log file")));
         let dump = std::env::var("AISMON_DUMP").ok().and_then(|s| s.parse().ok());
-        Logger { out, idx: 0, dump, p: Parser::new() }
+        Logger { out, idx: 0, dump, p: Parser::new(), sp: Parser::new(), open_len: 0 }
     }
     fn emit(&mut self, kind: &str, input: &[u8], extra_in: u64, canon: &str, facts: &str) {
         if let Some(o) = &mut self.out {
@@ -56,6 +60,8 @@ impl Logger {
     }
     pub fn reset_parser(&mut self) {
         self.p = Parser::new();
+        self.sp = Parser::new();
+        self.open_len = 0;
     }
     pub fn line(&mut self, rep: &mut Report, line: &[u8], decode: bool, wl: &str) {
         rep.eval();
@@ -64,28 +70,65 @@ impl Logger {
             Scan::Accept(f) => (f.n as i64, f.k as i64, f.payload.len() as i64),
             _ => (-1, -1, -1),
         };
-        let (kind, canon, dlen, over) = match &c {
-            Call::Panic(pi) => ("LP", format!("PANIC:{}", pi.msg), -1i64, 0),
-            Call::Done(o) => {
-                let (kind, s) = match o {
-                    Outcome::Complete(s) => ("LC", Some(s)),
-                    Outcome::Incomplete(s) => ("LI", Some(s)),
-                    Outcome::Err(_) => ("LE", None),
-                };
-                let dlen = s.map_or(-1, |s| s.data.len() as i64);
-                // capacity facts of the delivered message (from the reference model)
-                let over = match (o, decode) {
-                    (Outcome::Complete(s), true) => match armor::unarmored_bits(&s.data, s.fill as usize).map(|v| decode_ref(&v)) {
-                        Some(RefOut::Msg(m)) if m.caps.over() => 1,
+        let describe = |c: &Call| -> (&'static str, String, i64, i64) {
+            match c {
+                Call::Panic(pi) => ("LP", format!("PANIC:{}", pi.msg), -1i64, 0),
+                Call::Done(o) => {
+                    let (kind, s) = match o {
+                        Outcome::Complete(s) => ("LC", Some(s)),
+                        Outcome::Incomplete(s) => ("LI", Some(s)),
+                        Outcome::Err(_) => ("LE", None),
+                    };
+                    let dlen = s.map_or(-1, |s| s.data.len() as i64);
+                    // capacity facts of the delivered message (from the reference model)
+                    let over = match (o, decode) {
+                        (Outcome::Complete(s), true) => match armor::unarmored_bits(&s.data, s.fill as usize).map(|v| decode_ref(&v)) {
+                            Some(RefOut::Msg(m)) if m.caps.over() => 1,
+                            _ => 0,
+                        },
                         _ => 0,
-                    },
-                    _ => 0,
-                };
-                (kind, o.canon(), dlen, over)
+                    };
+                    (kind, o.canon(), dlen, over)
+                }
             }
         };
-        rep.class(format!("{}|{}|decode={}", wl, kind, decode as u8));
-        let facts = format!("n={} k={} plen={} dlen={} over={} decode={}", n, k, plen, dlen, over, decode as u8);
+        let (kind, canon, dlen, over) = describe(&c);
+        // capacity model of the no-allocator build (10 lines): a sentence payload above 384
+        // bytes cannot be read; a continuation that would take the open group above 384
+        // bytes cannot be stored. Such lines are rejected and (C17) leave no trace, so the
+        // expected behaviour is that of a parser that never saw them.
+        let skip = plen > 384 || (n >= 2 && k >= 2 && self.open_len as i64 + plen > 384);
+        let (skind, scanon, sover) = if skip {
+            ("LE", "E:capacity".to_string(), 0)
+        } else {
+            let sc = self.sp.parse(line, decode);
+            let (sk, scn, sdlen, sov) = describe(&sc);
+            match sk {
+                "LI" if k == 1 => self.open_len = sdlen.max(0) as usize,
+                "LI" => self.open_len += plen.max(0) as usize,
+                "LC" if n != 1 => self.open_len = 0,
+                _ => {}
+            }
+            (sk, scn, sov)
+        };
+        let cls = if plen > 384 {
+            "over-payload"
+        } else if skip {
+            "over-group"
+        } else if sover == 1 {
+            "over-message"
+        } else if plen == 384 || (skind != "LE" && n >= 2 && self.open_len == 384) {
+            "at-limit"
+        } else {
+            "within"
+        };
+        rep.class(format!("{}|{}|decode={}|{}", wl, kind, decode as u8, cls));
+        rep.count(&format!("line:{}", cls));
+        let facts = format!(
+            "n={} k={} plen={} dlen={} over={} decode={} skip={} sover={} skind={} shash={}",
+            n, k, plen, dlen, over, decode as u8, skip as u8, sover, match skind { "LC" => 2, "LI" => 1, "LE" => 0, _ => 9 },
+            (h64(scanon.as_bytes()) >> 1) as i64
+        );
         self.emit(kind, line, decode as u64, &canon, &facts);
     }
     pub fn msg(&mut self, rep: &mut Report, buf: &[u8], wl: &str) {
@@ -340,8 +383,6 @@ pub fn cfgdiff(std_log: &str, alloc_log: &str, none_log: &str) -> i32 {
     let mut viol: Vec<J> = Vec::new();
     let mut nviol = 0u64;
     let mut classes: std::collections::BTreeMap<String, u64> = std::collections::BTreeMap::new();
-    let mut glen: i64 = 0;
-    let mut poisoned = false;
     let mut push = |viol: &mut Vec<J>, nviol: &mut u64, sig: &str, idx: u64, why: String| {
         *nviol += 1;
         if viol.len() < 40 {
@@ -386,41 +427,30 @@ pub fn cfgdiff(std_log: &str, alloc_log: &str, none_log: &str) -> i32 {
         let mut must_err = false;
         let mut skip = false;
         let mut class = "within";
+        let mut line_expect: Option<(i64, i64, i64)> = None;
         match s.kind.as_bytes()[0] {
             b'L' => {
-                let (n, k, plen) = (f("n"), f("k"), f("plen"));
-                let accepted = s.kind == "LI" || s.kind == "LC";
-                if plen > 384 {
-                    must_err = true;
-                    class = "over-payload";
-                    if accepted && n >= 2 && k == 1 {
-                        // std opened a group the no-allocator build could not even read
-                        glen = plen;
-                        poisoned = true;
-                    }
-                } else if accepted && n >= 2 && k == 1 {
-                    glen = plen;
-                    poisoned = false;
-                    if plen == 384 {
-                        class = "at-limit";
-                    }
-                } else if accepted && n >= 2 {
-                    glen += plen;
-                    if glen > 384 || poisoned {
-                        must_err = true;
-                        poisoned = true;
-                        class = "over-group";
-                    } else if glen == 384 {
-                        class = "at-limit";
-                    }
-                } else if !accepted && poisoned && n >= 2 && k >= 2 {
-                    // the builds legitimately hold different group states: not judged
-                    skip = true;
-                    class = "poisoned-unjudged";
+                // the no-allocator build must behave like std's shadow parser, which never saw
+                // the lines exceeding a sentence-layer capacity (see Logger::line)
+                let fa = |k: &str| *al.facts.get(k).unwrap_or(&-1);
+                if f("shash") != fa("shash") || f("skind") != fa("skind") {
+                    push(&mut viol, &mut nviol, "std-vs-alloc", s.idx, format!("std and alloc shadow parsers differ on call {}", s.idx));
                 }
-                if !must_err && !skip && s.kind == "LC" && f("over") == 1 {
+                let nk = match no.kind.as_str() {
+                    "LC" => 2,
+                    "LI" => 1,
+                    "LE" => 0,
+                    _ => 9,
+                };
+                line_expect = Some((f("skind"), f("shash"), nk));
+                if f("skip") == 1 {
+                    must_err = true;
+                    class = if f("plen") > 384 { "over-payload" } else { "over-group" };
+                } else if f("sover") == 1 {
                     must_err = true;
                     class = "over-message";
+                } else if f("plen") == 384 {
+                    class = "at-limit";
                 }
             }
             b'M' => {
@@ -448,8 +478,17 @@ pub fn cfgdiff(std_log: &str, alloc_log: &str, none_log: &str) -> i32 {
             exempt += 1;
             // an error, or (hypothetically) the very same result as std; anything else is a
             // truncated or otherwise different delivery
-            if !no.kind.ends_with('E') && !(no.outh == s.outh && no.kind == s.kind) {
+            let same_as_shadow = match line_expect {
+                Some((skind, shash, nk)) => skind == nk && shash == (u64::from_str_radix(&no.outh, 16).unwrap_or(0) >> 1) as i64,
+                None => no.outh == s.outh && no.kind == s.kind,
+            };
+            if !no.kind.ends_with('E') && !same_as_shadow {
                 push(&mut viol, &mut nviol, &format!("noalloc-accepted-{}", class), s.idx, format!("call {} exceeds a fixed capacity ({}) but the no-allocator build returned {} instead of an error", s.idx, class, no.kind));
+            }
+        } else if let Some((skind, shash, nk)) = line_expect {
+            let nh = (u64::from_str_radix(&no.outh, 16).unwrap_or(0) >> 1) as i64;
+            if skind != nk || (nk != 0 && shash != nh) {
+                push(&mut viol, &mut nviol, "std-vs-none", s.idx, format!("call {}: the no-allocator build returned {} where std, fed the same history minus the over-capacity lines, returns kind {}", s.idx, no.kind, skind));
             }
         } else if no.outh != s.outh || no.kind != s.kind {
             push(&mut viol, &mut nviol, "std-vs-none", s.idx, format!("std ({}) and none ({}) differ on call {} although no capacity is exceeded", s.kind, no.kind, s.idx));
